@@ -11,7 +11,12 @@ from pyhms.config import (CMALevelConfig, DELevelConfig, EALevelConfig, LHSLevel
                           SHADELevelConfig, SobolLevelConfig, TreeConfig)
 from pyhms.core.problem import (EvalCountingProblem, EvalCutoffProblem, FunctionProblem, PrecisionCutoffProblem,
                                 ProblemWrapper, StatsGatheringProblem)
-from pyhms.demes.single_pop_eas.sea import MWEA, SEA, GAStyleSEA, SEAWithAdaptiveMutation, SEAWithCrossover
+from pyhms.config import BaseLevelConfig
+from pyhms.core.individual import Individual
+from pyhms.demes.abstract_deme import AbstractDeme
+from pyhms.demes.single_pop_eas.common import VariationalOperator, apply_bounds
+from pyhms.demes.single_pop_eas.sea import (MWEA, SEA, BaseSEA, GAStyleSEA, GaussianMutation, SEAWithAdaptiveMutation,
+                                            SEAWithCrossover, TournamentSelection)
 from pyhms.sprout.sprout_candidates import DemeCandidates, DemeFeatures
 from pyhms.sprout.sprout_filters import DemeLimit, FarEnough, LevelLimit, NBC_FarEnough, SkipSameSprout
 from pyhms.sprout.sprout_generators import (BestPerDeme, NBC_Generator, NBCGeneratorWithLocalMethod,
@@ -31,9 +36,88 @@ BOXES = {
     "tiny": lambda d: [(0.0, 1e-9)] * d,
     "huge": lambda d: [(-1e9, 1e9)] * d,
     "unit": lambda d: [(0.0, 1.0)] * d,
+    # faces that are no short decimal numbers (and differ in every dimension)
+    "thirds": lambda d: [(-2.0 / 3.0, 1.0 / 3.0), (-1.0 / 7.0, 22.0 / 7.0), (2.0 ** 0.5, 3.0 ** 0.5), (-1e-3 / 3.0, 1e-3 / 7.0),
+                         (1e5 / 3.0, 1e5 / 3.0 + 1.0), (-1.0 / 9.0, 1.0 / 9.0)][:d],
 }
 
-SEA_CLASSES = {"SEA": SEA, "SEAX": SEAWithCrossover, "GA": GAStyleSEA, "ADAPT": SEAWithAdaptiveMutation, "MWEA": MWEA}
+class CreepInPlace(VariationalOperator):
+    """A user-written operator that works on the population it is given (update_genome + evaluate) and returns it."""
+
+    def __init__(self, step, bounds):
+        self.step = step
+        self.bounds = bounds
+
+    def __call__(self, population):
+        moved = population.genomes + np.random.uniform(-self.step, self.step, size=population.genomes.shape)
+        population.update_genome(apply_bounds(moved, self.bounds, "clip"))
+        population.evaluate()
+        return population
+
+
+class MemeticSEA(BaseSEA):
+    """A user-defined engine plugged in through the public `ea_class` extension point of EALevelConfig: an SEA that
+    additionally probes two points between its best offspring and two others, evaluating them through the problem it
+    was created with (the deme's own counting problem, ea_deme.py:17-20)."""
+
+    def __init__(self, pipeline, k_elites, problem):
+        super().__init__(pipeline, k_elites)
+        self.problem = problem
+
+    @classmethod
+    def create(cls, **kwargs):
+        problem = kwargs.get("problem")
+        std = kwargs.get("mutation_std", 1.0)
+        # (every point the engine evaluates either survives or is worse than a survivor: C04's "best ever observed")
+        return cls([CreepInPlace(std, problem.bounds)], kwargs.get("k_elites", 1), problem)
+
+    def run(self, parents, **kwargs):
+        new = super().run(parents, **kwargs)
+        order = sorted(range(len(new)), key=lambda i: new[i], reverse=True)        # best first (Individual ordering)
+        best = new[order[0]]
+        for j in order[1:3]:
+            x = 0.5 * (best.genome + new[j].genome)
+            cand = Individual(x, self.problem, self.problem.evaluate(x))
+            worst = min(range(len(new)), key=lambda i: new[i])
+            if cand > new[worst]:
+                new[worst] = cand
+        return new
+
+
+class DocStyleConfig(BaseLevelConfig):
+    """docs/custom_demes.rst, step 1."""
+
+    def __init__(self, problem, lsc, pop_size):
+        super().__init__(problem, lsc)
+        self.pop_size = pop_size
+
+
+class DocStyleDeme(AbstractDeme):
+    """docs/custom_demes.rst, step 2: a random-search deme written the documented way - it subclasses AbstractDeme,
+    appends its populations to self._history itself and relies on the accessors of the base class."""
+
+    def __init__(self, deme_init_args):
+        super().__init__(deme_init_args)
+        config = deme_init_args.config
+        self._pop_size = config.pop_size
+        self.lower_bounds = config.bounds[:, 0]
+        self.upper_bounds = config.bounds[:, 1]
+        self._history.append([self._run_step()])
+
+    def run_metaepoch(self, tree) -> None:
+        self._history.append([self._run_step()])
+        if tree._gsc(tree) or self._lsc(self):
+            self._active = False
+
+    def _run_step(self):
+        genomes = np.random.uniform(self.lower_bounds, self.upper_bounds, size=(self._pop_size, len(self.lower_bounds)))
+        population = [Individual(genome, problem=self._problem) for genome in genomes]
+        Individual.evaluate_population(population)
+        return population
+
+
+SEA_CLASSES = {"SEA": SEA, "SEAX": SEAWithCrossover, "GA": GAStyleSEA, "ADAPT": SEAWithAdaptiveMutation, "MWEA": MWEA,
+               "MEMETIC": MemeticSEA}
 POP_ENGINES = set(SEA_CLASSES) | {"DE", "DEd", "SHADE"}
 
 
@@ -63,6 +147,37 @@ class RefusalProbe(ProblemWrapper):
         if self._rec.level_calls.get(self._level, 0) == n0:
             self._rec.refused += 1
         return r
+
+
+class TargetOrLimit(GlobalStopCondition):
+    """A user-defined global condition of the usual kind: stop when the best fitness found so far is good enough, or
+    after a number of metaepochs.  It reads tree.best_individual every time it is consulted - also in the middle of a
+    metaepoch, after every generation of every deme."""
+
+    def __init__(self, target, limit, maximize):
+        self.target, self.limit, self.maximize = target, limit, maximize
+
+    def __call__(self, tree) -> bool:
+        best = tree.best_individual
+        good = best is not None and (best.fitness >= self.target if self.maximize else best.fitness <= self.target)
+        return bool(good) or tree.metaepoch_count >= self.limit
+
+
+class DepthFirstBest(SproutCandidatesGenerator):
+    """A user-written generator: the current best of every active non-leaf deme, like BestPerDeme, but handed over in
+    depth-first order (parent, then its subtree) instead of level by level."""
+
+    def __call__(self, tree):
+        out = {}
+
+        def walk(deme):
+            if deme.level < tree.height - 1:
+                if deme.is_active:
+                    out[deme] = DemeCandidates(individuals=[deme.best_current_individual], features=DemeFeatures(nbc_mean_distance=None))
+                for c in deme.children:
+                    walk(c)
+        walk(tree.root)
+        return out
 
 
 # ------------------------------------------------------------------ scripted components
@@ -166,6 +281,9 @@ def _gsc(spec, rec, script, problems):
         inner = SingularProblemPrecisionReached(rec.precision)
     elif k == "Scripted":
         inner = ScriptedGSC(script["gsc"])
+    elif k == "Target":
+        t = float(spec.get("target", 0.02))
+        inner = TargetOrLimit(-t if rec.maximize else t, int(spec.get("n", 8)), rec.maximize)
     else:
         raise ValueError(k)
     return RecGSC(rec, inner)
@@ -213,6 +331,8 @@ def _level(lv, problem, lsc, bounds, depth):
         if "maxiter" in lv:
             kw["maxiter"] = int(lv["maxiter"])
         return LocalOptimizationConfig(**kw)
+    if e == "DOC":
+        return DocStyleConfig(problem=problem, lsc=lsc, pop_size=int(lv.get("pop", 6)))
     if e == "LHS":
         return LHSLevelConfig(problem=problem, lsc=lsc, pop_size=int(lv.get("pop", 6)))
     if e == "SOBOL":
@@ -273,7 +393,8 @@ def _sprout(spec, rec, bounds, script):
             tfil.append(LevelLimit(int(spec["limit"])))
         inner = SproutMechanism(ScriptedGenerator(script["offers"]), dfil, tfil)
     elif k == "composed":
-        gen = {"best": BestPerDeme, "nbc": lambda: NBC_Generator(float(spec.get("gen", 2.0)), float(spec.get("trunc", 1.0)))}[spec.get("generator", "best")]()
+        gen = {"best": BestPerDeme, "dfs": DepthFirstBest,
+               "nbc": lambda: NBC_Generator(float(spec.get("gen", 2.0)), float(spec.get("trunc", 1.0)))}[spec.get("generator", "best")]()
         dfil = []
         for f in spec.get("deme_filters", []):
             if f[0] == "far":
@@ -367,8 +488,9 @@ def build(spec: dict):
     options = {"log_level": "warning", "hibernation": bool(spec.get("hibernation", False))}
     if spec.get("seed") is not None:
         options["random_seed"] = int(spec["seed"])
-    if any(lv["engine"] == "CUSTOM" for lv in spec["levels"]):
-        cfg = TreeConfig(levels, gsc, sm, options=options, config_class_to_deme_class={CustomLevelConfig: CustomDeme})
+    if any(lv["engine"] in ("CUSTOM", "DOC") for lv in spec["levels"]):
+        cfg = TreeConfig(levels, gsc, sm, options=options,
+                         config_class_to_deme_class={CustomLevelConfig: CustomDeme, DocStyleConfig: DocStyleDeme})
     else:
         cfg = TreeConfig(levels, gsc, sm, options=options)
     return cfg, rec
@@ -379,9 +501,11 @@ def cfg_summary(spec: dict) -> dict:
     eng = []
     for lv in spec["levels"]:
         e = lv["engine"]
-        kind = ("SEA" if e in SEA_CLASSES or e == "CUSTOM" else "DE" if e in ("DE", "DEd") else "CMA" if e.startswith("CMA") else e)
+        # DOC (a documented-style user deme) follows the protocol of the one-shot samplers: sample, record, then gsc or lsc
+        kind = ("SEA" if e in SEA_CLASSES or e == "CUSTOM" else "DE" if e in ("DE", "DEd") else "CMA" if e.startswith("CMA")
+                else "LHS" if e == "DOC" else e)
         cls = {"SEA": "EADeme", "DE": "DEDeme", "SHADE": "SHADEDeme", "CMA": "CMADeme", "LOCAL": "LocalDeme", "LHS": "LHSDeme",
-               "SOBOL": "SobolDeme"}[kind] if e != "CUSTOM" else "CustomDeme"
+               "SOBOL": "SobolDeme"}[kind] if e not in ("CUSTOM", "DOC") else {"CUSTOM": "CustomDeme", "DOC": "DocStyleDeme"}[e]
         eng.append({"eng": kind, "variant": e, "cls": cls, "pop": int(lv.get("pop", 6 if kind != "SOBOL" else 8)) if kind not in ("CMA", "LOCAL") else 0,
                     "gens": int(lv.get("gens", 1)) if kind not in ("LOCAL", "LHS", "SOBOL") else 1,
                     "lsc": lv.get("lsc", {}).get("kind", "DontStop"), "lscn": int(lv.get("lsc", {}).get("n", 0)),
@@ -394,11 +518,12 @@ def cfg_summary(spec: dict) -> dict:
             "gsc": g["kind"], "gscn": int(g.get("n", 0)), "gscw": weights,
             "max": int(bool(spec.get("maximize", False))), "sprout": spec["sprout"]["kind"],
             "generator": {"simple": "best", "nbc": "nbc", "nbc_local": "nbc_local", "scripted": "scripted",
-                          "composed": spec["sprout"].get("generator", "best")}[spec["sprout"]["kind"]],
+                          "composed": {"dfs": "best"}.get(spec["sprout"].get("generator", "best"), spec["sprout"].get("generator", "best"))}[spec["sprout"]["kind"]],
             "haslocal": int(any(l["engine"] == "LOCAL" for l in spec["levels"])),
             "cutoff": int(any(w[0] == "cutoff" for w in spec.get("wrappers", []))),
             "wcount": sum(1 for w in spec.get("wrappers", []) if w[0] in ("count", "cutoff", "precision")),
             "idlecheck": int(bool(spec.get("idlecheck", True))),
             "manual": int((spec.get("drive") or ["run"])[0] != "run"),
             "cache": int(bool(spec.get("use_cache", False))),
+            "skipsame": int(spec["sprout"].get("skip_same", False) or any(f[0] == "skipsame" for f in spec["sprout"].get("tree_filters", []))),
             "name": spec.get("name", "")}
